@@ -4,6 +4,7 @@ import GoBT.Driver.C13
 import GoBT.Driver.C14
 import GoBT.Driver.Fee
 import GoBT.Driver.Json
+import GoBT.Driver.Addr
 open GoBT GoBT.Driver
 
 def dispatch (op : String) (args : List String) (impl : String) : Answer :=
@@ -38,6 +39,10 @@ def dispatch (op : String) (args : List String) (impl : String) : Answer :=
   | "C16.tx" => c16Tx args impl
   | "C16.out" => c16Obj args impl
   | "C16.utxo" => c16Obj args impl
+  | "C15.str" => c15Str args impl
+  | "C15.key" => c15Key args impl
+  | "C17.rt" => c17Rt args impl
+  | "C17.dec" => c17Dec args impl
   | _ => ("unknown-op", "n/a")
 
 partial def loop (h : IO.FS.Stream) (out : IO.FS.Stream) : IO Unit := do
